@@ -313,6 +313,26 @@ def fixed_programs(backend: str) -> list:
             prog += [('status', 'inbox'), ('select', e.rstrip('/')), ('delete', e.rstrip('/')),
                      ('list', '', '*'), ('status', 'zz')]
         progs.append(prog)
+    # a source name that is a string prefix of a sibling that is not an inferior
+    # (Work / Workshop, a / ab) under RENAME and DELETE
+    L = [('list', '', '*')]
+    names = ['a', 'ab', 'a/b', 'ab/c', 'Work', 'Workshop', 'Workshop/x', 'Work/y']
+    prog = [('create', n) for n in names] + [('append', 'Workshop/x'), ('append', 'ab'), ('append', 'ab')] + L
+    prog += [('rename', 'Work', 'Job')] + L + [('status', n) for n in ('Workshop', 'Workshop/x', 'Job', 'Job/y', 'Work')]
+    prog += [('rename', 'a', 'q')] + L + [('status', n) for n in ('ab', 'ab/c', 'q', 'q/b', 'a')]
+    prog += [('delete', 'q/b'), ('delete', 'q')] + L + [('status', n) for n in ('ab', 'ab/c')]
+    prog += [('rename', 'ab', 'a')] + L + [('status', n) for n in ('a', 'a/c', 'ab')]
+    prog += [('delete', 'Job/y'), ('delete', 'Job')] + L + [('status', 'Workshop/x')]
+    progs.append(prog)
+    # the empty-set boundary of the subscription list, seen from this session and
+    # from a second one ('lsub2')
+    S = [('lsub', '', '*'), ('lsub2', '', '*')]
+    prog = [('create', 'a'), ('create', 'b')] + S
+    prog += [('subscribe', 'a')] + S + [('unsubscribe', 'a')] + S
+    prog += [('subscribe', 'b')] + S + [('subscribe', 'a')] + S
+    prog += [('unsubscribe', 'b')] + S + [('unsubscribe', 'a')] + S
+    prog += [('subscribe', 'INBOX')] + S + [('unsubscribe', 'INBOX')] + S + [('unsubscribe', 'zz')] + S
+    progs.append(prog)
     return progs
 
 
@@ -485,7 +505,9 @@ class Runner:
         """-> (expect tuple for Coq, raw response, exception)"""
         self.k += 1
         tag = b't%d' % self.k
-        conn = await self._conn(aux=(op[0] == 'select'))
+        conn = await self._conn(aux=(op[0] in ('select', 'lsub2')))
+        if op[0] == 'lsub2':          # LSUB asked by a second session of the same user
+            op = ('lsub',) + tuple(op[1:])
         self.hook.last = None
         resp = await conn.cmd(wire_cmd(tag, op))
         cc = U.classify(resp, tag)
@@ -551,6 +573,8 @@ async def run_program(backend: str, prog, hook):
         steps = []
         for op in prog:
             e, resp, exc, wire = await r.do(op)
+            if op[0] == 'lsub2':
+                op = ('lsub',) + tuple(op[1:])
             steps.append((op, e, resp, exc, wire))
         await r.close()
         return init, steps
